@@ -251,6 +251,13 @@ def build_cases(run):
         for sname, acc in scheds:
             for mode in ("one", "all"):
                 cases.append(write_case(data, acc, mode, f"write/{mode}/{sname}"))
+    # long writes (internal chunking of the encoder) into sinks that accept only part of what is offered
+    for nbytes in ((513, 600, 1500) if not thorough else (513, 600, 1500, 5000, 20000)):
+        data = [rng.randrange(256) for _ in range(nbytes)]
+        for sname, acc in (("whole", []), ("100s", [100] * (nbytes // 25 + 4)), ("1024s", [1024] * (nbytes // 256 + 4)),
+                           ("1022-then-rest", [1022]), ("2s", [2] * 40 + [200] * (nbytes // 50 + 4)), ("big-then-odd", [1000, 7])):
+            for mode in ("one", "all"):
+                cases.append(write_case(data, acc, mode, f"write-long/{mode}/{sname}"))
     for b in ([0x00], [0x0F], [0xF0], [0xFF], [0x9A], [0xA9], list(range(0, 256, 17)), list(range(256))):
         cases.append(write_case(b, [], "all", "write/all/digits"))
     return cases
